@@ -53,6 +53,8 @@ def main():
             results[pid] = c.returncode
     finally:
         sh(["git", "-C", "/repo", "checkout", "--", "."])
+        # rebuild the tool from the restored tree so that no later direct engine run uses the seeded binary
+        sh(["cargo", "build", "--offline", "--manifest-path", "/repo/Cargo.toml", "--target-dir", os.path.join(ROOT, ".cache", "repo-target")], env=dict(os.environ, CARGO_NET_OFFLINE="true"))
         st = sh(["git", "-C", "/repo", "status", "--porcelain", "--untracked-files=no"]).stdout.decode().strip()
         print("/repo restored" if not st else "WARNING /repo not clean: " + st)
     return 0
